@@ -930,8 +930,9 @@ class Card:
         """
         description = description or ""
         for key, val in kwargs.items():
+            title = split_subsection_names(key)[-1]
             section = TableSection(
-                title=key, content=description, table=val, folded=folded
+                title=title, content=description, table=val, folded=folded
             )
             self._add_single(key, section)
         return self
